@@ -78,7 +78,18 @@ class Harness(cm.BaseA):
         return {"depth": self.depth(tier), "labware": "W1", "worklist_max_volume": 50}
 
     def configs(self, tier):
-        return [{"labware": cm.W1(), "worklists": {"e": {"cls": "EvoWorklist", "max_volume": 50}, "f": {"cls": "FluentWorklist", "max_volume": 50}}}]
+        out = []
+        for asplit in (True, False):
+            out.append(
+                {
+                    "labware": cm.W1(),
+                    "worklists": {
+                        "e": {"cls": "EvoWorklist", "max_volume": 50, "auto_split": asplit},
+                        "f": {"cls": "FluentWorklist", "max_volume": 50, "auto_split": asplit},
+                    },
+                }
+            )
+        return out
 
     def init(self, config):
         return make_world(config)
